@@ -749,11 +749,11 @@ func (s *Sim) Run(until func() bool) Outcome {
 		if s.Watch != nil && s.Watch(p.site) && len(s.Snapshots) < 64 {
 			sn := Snapshot{Seq: s.seq.Load() + 1, Site: p.site, G: p.g.Name}
 			for _, q := range s.parked {
-				sn.Others = append(sn.Others, roleOf(q.g.Name)+"@"+q.site)
+				sn.Others = append(sn.Others, q.g.Name+"@"+q.site)
 			}
 			for _, g := range s.live {
 				if s.parked[g.Name] == nil && g.Name != p.g.Name {
-					sn.Others = append(sn.Others, roleOf(g.Name)+" after@"+g.LastSite)
+					sn.Others = append(sn.Others, g.Name+" after@"+g.LastSite)
 				}
 			}
 			sort.Strings(sn.Others)
